@@ -9,6 +9,7 @@ from typing import (
     List,
     Optional,
     Protocol,
+    Set,
     Tuple,
     Union,
     cast,
@@ -114,7 +115,17 @@ def resolve1(x: object, default: object = None) -> Any:
     If this is an array or dictionary, it may still contains
     some indirect objects inside.
     """
+    seen: Optional[Set[int]] = None
     while isinstance(x, PDFObjRef):
+        # A chain of references that comes back to an object it already
+        # went through (e.g. "6 0 obj 6 0 R endobj") never ends.
+        if seen is None:
+            seen = set()
+        elif x.objid in seen:
+            if settings.STRICT:
+                raise PDFValueError("Circular reference: %r" % x)
+            return default
+        seen.add(x.objid)
         x = x.resolve(default=default)
     return x
 
